@@ -88,6 +88,11 @@ def translate(repo):
     items.append(typed("callback_popped_then_called", "bool", coq_bool(
         cb[0] == "_callback = self._request_callbacks.pop(seq, None)" and cb[1].startswith("if _callback is not None:\n    _callback(is_exc, obj)"))))
     ar = strip_doc(find_func(cls, "_async_request").body)
+    # an optional first statement refuses a closed channel before anything is registered or boxed (repaired tree)
+    closed_guard = bool(ar) and u(ar[0]) == "if self._channel.closed:\n    raise EOFError('connection closed')"
+    if closed_guard:
+        ar = ar[1:]
+    items.append(typed("async_request_refuses_closed_channel", "bool", coq_bool(closed_guard)))
     ok = (len(ar) == 3 and u(ar[0]) == "seq = self._get_seq_id()" and u(ar[1]) == "self._request_callbacks[seq] = callback"
           and isinstance(ar[2], ast.Try) and [u(x) for x in ar[2].body] == ["self._send(consts.MSG_REQUEST, seq, (handler, self._box(args)))"]
           and len(ar[2].handlers) == 1 and u(ar[2].handlers[0].type) == "Exception"
